@@ -18,6 +18,7 @@ import (
 	"bytes"
 	"context"
 	"encoding/binary"
+	"encoding/json"
 	"errors"
 	"fmt"
 	"image"
@@ -38,6 +39,7 @@ const (
 	c19StyleLegacy   = 1 // {{.System}} {{.Prompt}} {{.Response}}
 	c19StyleDefault  = 2 // {{ .Prompt }}
 	c19StyleInPlace  = 3 // every message, system ones included, in place
+	c19StyleTools    = 4 // the request's tools, then every message in place
 )
 
 var c19TemplateSrc = []string{
@@ -48,12 +50,14 @@ var c19TemplateSrc = []string{
 {{- if .Response }}{{ .Response }} {{ end }}`,
 	`{{ .Prompt }}`,
 	`{{range .Messages}}[{{.Role}}|{{.Content}}]{{end}}`,
+	`{{if .Tools}}T<{{.Tools}}>
+{{end}}{{range .Messages}}[{{.Role}}|{{.Content}}]{{end}}`,
 }
 
 // real templates shipped in /repo/template, styles 4, 5, …: the oracle does not render these
 // (prompt and cost cross-check are reported as `?`); the cost vector still comes from the real
 // template, and L2 compares the prompt with the real template applied to the specified input.
-var c19RealTemplates = []string{"chatml", "llama3-instruct", "alpaca", "mistral-instruct", "gemma-instruct", "llama2-chat"}
+var c19RealTemplates = []string{"chatml", "llama3-instruct", "alpaca", "mistral-instruct", "gemma-instruct", "llama2-chat", "command-r"}
 
 type c19Img struct {
 	src int
@@ -75,6 +79,7 @@ type c19Case struct {
 	mode    int    // tokenizer: 0 fields, 1 bytes
 	tokFail int    // 1 + the index i whose measurement makes the tokenizer fail (0: never); carried by the cost vector as K
 	msgs    []c19Msg
+	tools   api.Tools // the request's tools: part of every candidate render and of the final one
 
 	tm  *template.Template // parsed lazily
 	ast string             // serialised parse tree ("X" = outside the modelled subset)
@@ -267,7 +272,7 @@ func (e *c19Env) costs(c *c19Case) []int {
 			}
 		}
 		in = append(in, msgs[i:]...)
-		x := c19Measure(tm, c.mode, in)
+		x := c19Measure(tm, c.mode, in, c.tools)
 		if c.tokFail > 0 && i == c.tokFail-1 && x >= 0 {
 			x = -3
 		}
@@ -276,14 +281,14 @@ func (e *c19Env) costs(c *c19Case) []int {
 	return out
 }
 
-func c19Measure(tm *template.Template, mode int, in []api.Message) (n int) {
+func c19Measure(tm *template.Template, mode int, in []api.Message, tools api.Tools) (n int) {
 	defer func() {
 		if r := recover(); r != nil {
 			n = -2
 		}
 	}()
 	var b bytes.Buffer
-	if err := tm.Execute(&b, template.Values{Messages: in}); err != nil {
+	if err := tm.Execute(&b, template.Values{Messages: in, Tools: tools}); err != nil {
 		return -1
 	}
 	return c19Tokens(mode, b.String())
@@ -299,12 +304,14 @@ type c19Real struct {
 	}
 	msgs  []api.Message // after the call
 	calls int
+	tokIn []string // what the tokenizer was called with, in order
 }
 
 func (e *c19Env) runReal(c *c19Case) (r c19Real) {
 	r.msgs = e.apiMsgs(c)
 	tok := func(_ context.Context, s string) ([]int, error) {
 		r.calls++
+		r.tokIn = append(r.tokIn, s)
 		// call number k measures index L-1-k
 		if c.tokFail > 0 && len(c.msgs)-1-r.calls == c.tokFail-1 {
 			return nil, errors.New("c19: tokenizer failure")
@@ -318,7 +325,7 @@ func (e *c19Env) runReal(c *c19Case) (r c19Real) {
 				r.panicked = fmt.Sprint(p)
 			}
 		}()
-		prompt, images, err := chatPrompt(context.Background(), e.model(c), tok, &opts, r.msgs, nil)
+		prompt, images, err := chatPrompt(context.Background(), e.model(c), tok, &opts, r.msgs, c.tools)
 		r.prompt, r.err = prompt, err
 		for _, im := range images {
 			r.images = append(r.images, struct {
@@ -338,7 +345,7 @@ func (c *c19Case) opLine(fixed int, costs []int) string {
 		}
 		return 0
 	}
-	fmt.Fprintf(&sb, "chat %d %d %d %d %d %s %s %d", fixed, b2i(c.mllama), c.proj, c.limit, c.mode, zzverif.Hex([]byte(c.src)), c.ast, len(c.msgs))
+	fmt.Fprintf(&sb, "chat %d %d %d %d %d %s %s %d", fixed, b2i(c.mllama), c.proj, c.limit, c.mode, zzverif.Hex([]byte(c.src)), c.ast+fmt.Sprintf(" %d %s", len(c.tools), zzverif.Hex([]byte(c.tools.String()))), len(c.msgs))
 	for _, m := range c.msgs {
 		fmt.Fprintf(&sb, " %s %s %d", m.role, zzverif.Hex([]byte(m.content)), len(m.imgs))
 		for _, im := range m.imgs {
@@ -428,6 +435,13 @@ func c19ParseLine(line string) (*c19Case, error) {
 			}
 			skipNodes()
 		}
+		if nt := num(); nt > 0 {
+			if err := json.Unmarshal(zzverif.Unhex(next()), &c.tools); err != nil {
+				panic(err)
+			}
+		} else {
+			next()
+		}
 		n := num()
 		for i := 0; i < n; i++ {
 			m := c19Msg{role: next()}
@@ -514,9 +528,17 @@ func (e *c19Env) implLine(c *c19Case, r *c19Real) string {
 		ms = append(ms, zzverif.Hex([]byte(m.Content)))
 	}
 	if c.ast == "X" {
-		return fmt.Sprintf("ok q=%d imgs=%s msgs=%s prompt=? costs=?", r.calls, is, strings.Join(ms, ";"))
+		return fmt.Sprintf("ok q=%d imgs=%s msgs=%s prompt=? costs=? tok=?", r.calls, is, strings.Join(ms, ";"))
 	}
-	return fmt.Sprintf("ok q=%d imgs=%s msgs=%s prompt=%s costs=ok", r.calls, is, strings.Join(ms, ";"), zzverif.Hex([]byte(r.prompt)))
+	toks := "-"
+	if len(r.tokIn) > 0 {
+		var ls []string
+		for _, x := range r.tokIn {
+			ls = append(ls, strconv.Itoa(len(x)))
+		}
+		toks = strings.Join(ls, ",")
+	}
+	return fmt.Sprintf("ok q=%d imgs=%s msgs=%s prompt=%s costs=ok tok=%s", r.calls, is, strings.Join(ms, ";"), zzverif.Hex([]byte(r.prompt)), toks)
 }
 
 func c19Rendered(style int, role string) bool {
@@ -544,6 +566,36 @@ func (e *c19Env) l2(out *zzverif.Out, c *c19Case, costs []int, r *c19Real, line 
 	if strings.Contains(r.panicked, "parse.Node is nil, not *parse.ListNode") {
 		// no prompt at all: the template layer panics on a template that parses fine
 		out.L2("template-panic", line, "deleteNode else-list: chatPrompt panics in template.Execute: "+c19Clip(r.panicked))
+	}
+	// (T) what the tokenizer is asked to measure: call k must be the real template applied to
+	// system(i) ++ msgs[i:] for i = L-1-k WITH the request's tools — the same Values the final prompt
+	// is rendered from (independent render by the driver on a fresh copy of the conversation).
+	if r.panicked == "" {
+		for k, got := range r.tokIn {
+			i := len(c.msgs) - 2 - k
+			if i < 0 {
+				out.L2("candidate-render", line, fmt.Sprintf("tokenizer call %d has no candidate (conversation of %d messages)", k+1, len(c.msgs)))
+				break
+			}
+			msgs := e.apiMsgs(c)
+			var in []api.Message
+			for j := 0; j < i; j++ {
+				if msgs[j].Role == "system" {
+					in = append(in, msgs[j])
+				}
+			}
+			in = append(in, msgs[i:]...)
+			var b bytes.Buffer
+			if err := e.tmplOf(c).Execute(&b, template.Values{Messages: in, Tools: c.tools}); err != nil {
+				break
+			}
+			if b.String() != got {
+				out.L2("candidate-render", line, fmt.Sprintf("tokenizer call %d measured %d bytes (%d tokens); the candidate system(<%d) ++ msgs[%d:] with the request's %d tools renders to %d bytes (%d tokens)",
+					k+1, len(got), c19Tokens(c.mode, got), i, i, len(c.tools), b.Len(), c19Tokens(c.mode, b.String())))
+				break
+			}
+			out.Count("l2_candidate_render_checked")
+		}
 	}
 	if r.panicked != "" || r.err != nil {
 		return
@@ -599,7 +651,7 @@ func (e *c19Env) l2(out *zzverif.Out, c *c19Case, costs []int, r *c19Real, line 
 		}
 		in = append(in, r.msgs[n:]...)
 		var b bytes.Buffer
-		if err := e.tmplOf(c).Execute(&b, template.Values{Messages: in}); err != nil {
+		if err := e.tmplOf(c).Execute(&b, template.Values{Messages: in, Tools: c.tools}); err != nil {
 			return "<execute error: " + err.Error() + ">"
 		}
 		return b.String()
@@ -613,7 +665,37 @@ func (e *c19Env) l2(out *zzverif.Out, c *c19Case, costs []int, r *c19Real, line 
 	} else {
 		out.Count("l2_prompt_equals_spec_render")
 	}
-	generic := c.style > c19StyleInPlace || c.style < 0
+	// (F) the prompt that is sent fits: whenever more than the latest message is retained, the real
+	// tokenizer on the real final prompt gives at most num_ctx (conversations without images: the
+	// contents are not rewritten, so the final prompt is one of the measured candidates).
+	convImages := 0
+	for _, m := range c.msgs {
+		convImages += len(m.imgs)
+	}
+	if convImages == 0 {
+		var in []api.Message
+		for j := 0; j < L-1; j++ {
+			if r.msgs[j].Role == "system" {
+				in = append(in, r.msgs[j])
+			}
+		}
+		in = append(in, r.msgs[L-1])
+		var b bytes.Buffer
+		if err := e.tmplOf(c).Execute(&b, template.Values{Messages: in, Tools: c.tools}); err == nil && b.String() != r.prompt {
+			out.Count("l2_final_prompt_fits_evaluated")
+			if got := c19Tokens(c.mode, r.prompt); got > c.limit {
+				out.L2("final-prompt-exceeds-limit", line, fmt.Sprintf("more than the latest message is retained but the prompt has %d tokens, num_ctx is %d (request with %d tools, %d bytes of tools JSON)", got, c.limit, len(c.tools), len(c.tools.String())))
+			}
+		}
+	}
+	generic := c.style > c19StyleTools || c.style < 0
+	// templates outside the harness set: the marker clauses apply when the SOURCE shows that the
+	// content of every message is printed unconditionally inside a range over the messages
+	// (syntactic analysis of the parse tree, independent of Execute/Vars)
+	rendersAll := generic && c.ast != "X" && c19RendersAllContent(e.tmplOf(c)) // inside the subset: no continue/break/variables
+	if rendersAll {
+		out.Count("l2_marker_clauses_on_generated_or_shipped_template")
+	}
 	hasMarker := func(j int) bool { return strings.Contains(c.msgs[j].content, c19Marker(j)) }
 	literalTag := false
 	for _, m := range c.msgs {
@@ -698,6 +780,22 @@ func (e *c19Env) l2(out *zzverif.Out, c *c19Case, costs []int, r *c19Real, line 
 	}
 
 	// (a) latest kept
+	if rendersAll && hasMarker(L-1) && cnt(L-1) == 0 {
+		out.L2("latest-dropped", line, fmt.Sprintf("marker %s of the latest message not in the prompt although the template prints every message's content", c19Marker(L-1)))
+	}
+	if rendersAll {
+		for j := 0; j < L; j++ {
+			if !hasMarker(j) {
+				continue
+			}
+			switch k := cnt(j); {
+			case j >= n && k == 0:
+				out.L2("retained-missing", line, fmt.Sprintf("generated/shipped template printing every content: message %d (role %s) of the retained run [%d:] is not in the prompt", j, c.msgs[j].role, n))
+			case j < n && c.msgs[j].role != "s" && k != 0:
+				out.L2("dropped-present", line, fmt.Sprintf("generated/shipped template: message %d precedes the retained run [%d:] but occurs %d times in the prompt", j, n, k))
+			}
+		}
+	}
 	if !generic && hasMarker(L-1) && c19Rendered(c.style, c.msgs[L-1].role) && cnt(L-1) == 0 {
 		out.L2("latest-dropped", line, fmt.Sprintf("marker %s of the latest message not in the prompt", c19Marker(L-1)))
 	}
@@ -809,13 +907,23 @@ func c19Gen(r *zzverif.Rng) *c19Case {
 	}
 	switch x := r.Intn(10); {
 	case x < 4:
-		c.style = r.Intn(4)
+		c.style = r.Intn(len(c19TemplateSrc))
 	case x < 6:
-		c.style = 4 + r.Intn(len(c19RealTemplates))
+		c.style = len(c19TemplateSrc) + r.Intn(len(c19RealTemplates))
 	case x < 8:
 		c.style, c.src = c19StyleGenerated, c19GenMessagesTemplate(r)
 	default:
 		c.style, c.src = c19StyleGenerated, c19GenLegacyTemplate(r)
+	}
+	// the request's tools (0-3, descriptions of varying size); half of the requests with tools go to a
+	// template that certainly renders them
+	c.tools = c19GenTools(r)
+	if len(c.tools) > 0 && r.Chance(1, 2) {
+		if r.Chance(1, 2) {
+			c.style, c.src = c19StyleTools, ""
+		} else {
+			c.style, c.src = c19StyleGenerated, c19Act(r, "if .Tools")+zzverif.Pick(r, c19TmplText)+c19Act(r, zzverif.Pick(r, []string{".Tools", "json .Tools"}))+c19Act(r, "end")+c19GenMessagesTemplate(r)
+		}
 	}
 	c.mode = r.Intn(2)
 	L := r.Pick3(1, 4, 9)
@@ -890,6 +998,27 @@ func c19Gen(r *zzverif.Rng) *c19Case {
 		c.msgs = append(c.msgs, m)
 	}
 	return c
+}
+
+func c19GenTools(r *zzverif.Rng) api.Tools {
+	n := zzverif.Pick(r, []int{0, 0, 0, 0, 1, 1, 2, 3})
+	var tools api.Tools
+	for k := 0; k < n; k++ {
+		var t api.Tool
+		t.Type = "function"
+		t.Function.Name = fmt.Sprintf("fn%d", k)
+		var d []string
+		for w := r.Pick3(0, 4, 14); w > 0; w-- {
+			d = append(d, zzverif.Pick(r, c19Words))
+		}
+		t.Function.Description = strings.Join(d, " ")
+		t.Function.Parameters.Type = "object"
+		if r.Chance(1, 2) {
+			t.Function.Parameters.Required = []string{"a"}
+		}
+		tools = append(tools, t)
+	}
+	return tools
 }
 
 // pickLimit aims the context length at the boundaries of the measured totals.
@@ -976,6 +1105,10 @@ func (e *c19Env) runCase(out *zzverif.Out, c *c19Case) {
 	line := c.opLine(e.fixed, costs)
 	out.Case(line, e.implLine(c, &r))
 	out.Count("cases")
+	out.Count(fmt.Sprintf("tools_%d", len(c.tools)))
+	if len(c.tools) > 0 && strings.Contains(c.src, "Tools") {
+		out.Count("tools_and_template_mentions_tools")
+	}
 	if c.style >= 0 {
 		out.Count(fmt.Sprintf("style_%d", c.style))
 	} else if strings.Contains(c.src, ".Messages") {
